@@ -9,6 +9,7 @@ package absint
 
 import (
 	"fmt"
+	"go/ast"
 	"go/token"
 	"go/types"
 	"sort"
@@ -76,6 +77,7 @@ type State struct {
 	Facts        map[string]bool // branch conditions assumed on this path (expression text -> value)
 	Und          []string        // reasons why this path is undecided
 	DeferRestore []string
+	DeferCalls   []*ast.CallExpr // deferred paired pops (popRecovery, popV), applied at every return, last first
 }
 
 // Event is a significant effect on the path, in execution order.
@@ -104,6 +106,7 @@ func (s *State) clone() *State {
 	}
 	n.Ev = append([]Event(nil), s.Ev...)
 	n.Und = append([]string(nil), s.Und...)
+	n.DeferCalls = append([]*ast.CallExpr(nil), s.DeferCalls...)
 	n.Facts = make(map[string]bool, len(s.Facts))
 	for k, v := range s.Facts {
 		n.Facts[k] = v
